@@ -8,6 +8,8 @@ from sa import paths as P
 from sa import optional as OPT
 from sa import speccov as SC
 from sa import agree as G
+from sa import order as OR
+from sa import purity as PU
 
 
 def _t(rule_fn, **kw):
@@ -40,6 +42,7 @@ FLOORS = {
     "X1": 5, "X2": 40, "X3": 6,
     "P1": 5, "P2": 5, "P3": 5, "P4": 2, "P5": 3, "P6": 9, "P7": 5,
     "E7": 30, "U1": 5, "S2": 12, "S3": 15, "G1": 6, "S1b": 6, "M1": 2,
+    "N1": 25, "N2": 8, "O4": 3, "O5": 4, "O6": 2,
 }
 
 PROPERTIES = {}
@@ -360,6 +363,60 @@ prop(
 )
 
 prop(
+    "C14",
+    anchor_modules=["composers.native", "graphing", "specs.native.v1.models"],
+    rules=[OR.rule_N2],
+    controls=[K.ctl_unsorted_start_tasks],
+    explanation=(
+        "Decides one clause: the composed graph does not depend on the declaration order of "
+        "tasks. Every TaskMappingSpec method the composer uses (transitively) either does not "
+        "iterate the task mapping or returns a value that is sorted by task name / is a boolean "
+        "or a count, and the composer iterates only those sorted results and its own queue; the "
+        "graph is restored as a directed multigraph (call fact). NOT decided: exactness of nodes "
+        "and edges against the definition over all shapes (the split-tracking pruning of the "
+        "composer is an algorithm whose correctness is semantic), fidelity of networkx edge keys."),
+    assumptions=[A_AST],
+)
+
+prop(
+    "C16",
+    anchor_modules=["expressions.base", "expressions.yql", "expressions.jinja",
+                    "expressions.functions.common", "conducting", "specs.native.v1.models"],
+    rules=[PU.rule_O4, PU.rule_O5, PU.rule_O6],
+    controls=[K.ctl_persist_internal_ctx, K.ctl_ctx_unfiltered, K.ctl_yaql_raw_context],
+    explanation=(
+        "Decides the purity and hiding clauses: in every Evaluator.contextualize the caller's "
+        "context reaches the template engine only through a converting / copying call (O4); no "
+        "value that may carry double-underscore keys (__state, __current_task, __current_item) "
+        "is appended to the persisted contexts or stored as the workflow output, and "
+        "finalize_context strips such names from the outgoing context (O5); ctx() raises for a "
+        "double-underscore key and filters them from the unkeyed form (O6). NOT decided: "
+        "preservation of arbitrary JSON values through ujson, YAQL conversion and string "
+        "interpolation (run-time values)."),
+    assumptions=[A_ABS, A_AST],
+)
+
+prop(
+    "C19",
+    anchor_modules=ENGINE_MODS + ["composers.native", "specs.base", "specs.native.v1.models",
+                                  "graphing", "expressions.base"],
+    rules=[OR.rule_N1, E.rule_F5, E.rule_O2, OR.rule_N2],
+    controls=[K.ctl_partial_sort_of_set, K.ctl_drop_ctx_copy],
+    explanation=(
+        "Decides the structural clauses of determinism and query purity: every collection "
+        "derived from a set (33 set-constructing expressions today) reaches only "
+        "order-insensitive consumers or a sort whose key determines the element - no indexing, "
+        "formatting, list equality, queue insertion, state/graph write or API return in hash "
+        "order (N1); offers are returned sorted by (id, route); the graph does not depend on "
+        "declaration order (N2); get_next_tasks and every other query write nothing but the "
+        "documented item-list initialisation and the error path, and mutate nothing through a "
+        "borrowed reference (F5, O2). NOT decided: determinism of foreign libraries (yaql, "
+        "jinja2, networkx, ujson)."),
+    assumptions=[A_ABS, A_AST, "the order analysis treats boolean accumulation in a loop over an "
+                 "unordered collection as order-insensitive (exists/forall idiom)"],
+)
+
+prop(
     "C18",
     anchor_modules=ENGINE_MODS,
     rules=[E.rule_F1, E.rule_F2, E.rule_F3, _t(T.rule_T4e), E.rule_O1, E.rule_O2],
@@ -392,6 +449,11 @@ NOT_APPLICABLE = {
 PENDING = {}
 
 TECHNIQUE = {
+    "C14": "order-taint / return-shape analysis of the task-mapping accessors the composer uses",
+    "C16": "dataflow from the evaluation context to the template engine; internal-name taint to "
+           "persistence sinks; guard analysis of ctx()",
+    "C19": "order-taint analysis from every set-constructing expression to order-sensitive "
+           "sinks + query effect analysis",
     "C15": "typestate closure of the event tables + optional-value (None / missing key) "
            "dereference analysis + inspection wiring / coverage agreement + taint of unvalidated "
            "task names (ast)",
